@@ -233,7 +233,8 @@ def run(rep, tier, seed):
   items = [("psfull-bucket", (depth, b), None) for b in psfull.buckets(depth)]
   if tier == "quick":
     # quick: depth 2 in the async-function context (admits the most forms) + depth 1 in every context
-    items = [it for it in items if it[1][1][0] == "afn"]
+    items = [it for it in items if it[1][1][0] == "afn" or (
+        it[1][1][0] == "meth" and it[1][1][1] is not None and it[1][1][1][0] in ("def", "class", "asyncdef", "deco", "tryexcept", "with", "if"))]
     items += [("psfull-bucket", (1, b), None) for b in psfull.buckets(1) if b[0] != "afn"]
     nseeds, max_lines = 2, 0
   else:
@@ -259,6 +260,8 @@ def run(rep, tier, seed):
       items.append(("annot", aid, src))
   for sid, src in psexpr.signatures():
     items.append(("signature", sid, src))
+  for did, src in psexpr.directive_programs(tier):
+    items.append(("directive", did, src))
   sigs = {}
   for item, results in vrun.pmap(work, items, seed=seed, chunksize=1, progress=2000):
     for r in results:
@@ -283,7 +286,8 @@ def run(rep, tier, seed):
                   "psexpr_statements": n_expr, "psexpr_pack": PACK,
                   "psexpr_patterns": sum(1 for i in items if i[0] == "pattern"),
                   "psexpr_annotated_statements": sum(1 for i in items if i[0] == "annot"),
-                  "psexpr_annotated_signatures": sum(1 for i in items if i[0] == "signature")})
+                  "psexpr_annotated_signatures": sum(1 for i in items if i[0] == "signature"),
+                  "directive_comment_programs": sum(1 for i in items if i[0] == "directive")})
   rep.rule = ("every PS-full candidate of the tier (compilable or not), every 1-token deletion / menu insertion of the seed "
               "programs, stdlib files <= max_lines (thorough); non-trivial = sources that compile and were analysed by the VM; "
               "violations are keyed by failure signature (exception type @ raising site, or oracle clause) with the first witness")
